@@ -139,10 +139,13 @@ def case(x, e):
     return "D\t%s\t%s" % (x, e)
 
 
-def class_cases():
+def class_cases(tier="thorough"):
     out = []
+    shapes = ["__X", "(mul (i 2) __X)", "(add (pow __X (i 2)) y)", "y", "(mul y __X)", "(q 1 3)"]
+    if tier == "quick":
+        shapes = shapes[:4]
     for f in F1_RULE + F1_OTHER:
-        for arg in ["__X", "(mul (i 2) __X)", "(add (pow __X (i 2)) y)", "y", "(mul y __X)", "(q 1 3)"]:
+        for arg in shapes:
             out.append(case("x", "(f1 %s %s)" % (f, arg)))
         out.append(case("x", "(pow (f1 %s __X) (i 2))" % f))
         out.append(case("x", "(mul y (f1 %s (f1 sin __X)))" % f))
@@ -458,8 +461,8 @@ def run(ctx):
         build_coq(ctx)
         ctx.prove([], OBLIGATIONS)
     drv, model = build(ctx)
-    n = 420 if ctx.tier == "quick" else 6000
-    cases = list(CORPUS) + class_cases() + gen_cases(ctx.rng, ctx.tier, n)
+    n = 320 if ctx.tier == "quick" else 6000
+    cases = list(CORPUS) + class_cases(ctx.tier) + gen_cases(ctx.rng, ctx.tier, n)
     explore(ctx, drv, model, cases)
     npoly = 120 if ctx.tier == "quick" else 2000
     explore_poly(ctx, drv, model, list(POLY_CORPUS) + [gen_poly(ctx.rng, ctx.tier) for _ in range(npoly)])
